@@ -86,7 +86,9 @@ func genSeqPlan(prop string, seed uint64, tier string) *Plan {
 	kinds := []string{"put", "put", "put", "get", "del", "pappend", "pappend", "premove", "plist", "pcontains", "listkeys", "listkeys"}
 	switch prop {
 	case "C17":
-		kinds = append(kinds, "rangekeys", "rangekeys", "rangekeys", "roundtrip", "roundtrip", "removekeys", "acquire", "release")
+		// (the clock advances too: a lease that has lapsed but was never released is still the key's data
+		// and has to survive a hand-over like any other token)
+		kinds = append(kinds, "rangekeys", "rangekeys", "rangekeys", "roundtrip", "roundtrip", "removekeys", "acquire", "acquire", "release", "advance", "advance")
 	case "C19":
 		kinds = []string{"acquire", "acquire", "acquire", "renew", "renew", "release", "release", "advance", "advance", "listkeys", "put"}
 	case "C21":
